@@ -82,9 +82,7 @@ func Arith(op byte, a, b interface{}) (interface{}, error) {
 			}
 			r = x / y
 		}
-		if math.IsNaN(r) {
-			return nil, ErrUndefined
-		}
+		// inf - inf, 0 * inf: NaN is an ordinary float64 value (its comparisons follow float64 as well)
 		return r, nil
 	}
 	// unsigned with unsigned: wrapping uint64
@@ -177,7 +175,8 @@ func Compare(op string, a, b interface{}) (bool, error) {
 		if ca == CFloat || cb == CFloat {
 			x, y := toF(a), toF(b)
 			if math.IsNaN(x) || math.IsNaN(y) {
-				return false, ErrUndefined
+				// "a comparison involving a float is made in float64": unordered - only != holds
+				return op == "!=", nil
 			}
 			switch {
 			case x < y:
@@ -254,9 +253,11 @@ func SameValue(a, b interface{}) bool {
 	}
 	switch x := a.(type) {
 	case float64:
-		return math.Float64bits(x) == math.Float64bits(b.(float64))
+		y := b.(float64)
+		return math.Float64bits(x) == math.Float64bits(y) || (math.IsNaN(x) && math.IsNaN(y))
 	case float32:
-		return math.Float32bits(x) == math.Float32bits(b.(float32))
+		y := b.(float32)
+		return math.Float32bits(x) == math.Float32bits(y) || (x != x && y != y)
 	}
 	return reflect.DeepEqual(a, b)
 }
